@@ -626,6 +626,27 @@ func (h *Hist) step() {
 		if f, ok := h.pickFile(); ok {
 			h.W("rm", f, nil)
 		}
+	case "hard-rmdir":
+		// a tracked directory D with a file directly in it, a tracked sibling whose name extends D's name with a
+		// byte that sorts below '/', everything committed; then D vanishes from the working tree and
+		// `reset --hard` has to put it back
+		if d, ok := h.pickDir(); ok && IsTrackedDir(h.obs, d) {
+			sib := d + r.pick([]string{"-old", ".x", " e", "+1", "!"})
+			if _, exists := h.obs.Files[sib]; !exists && !isDirIn(h.obs, sib) {
+				h.W("write", sib, h.content())
+			}
+			h.W("write", d+"/"+r.pick([]string{"0first", "a", "A"}), h.content())
+			h.X(tz, "add", ".")
+			h.X(tz, "commit", "-m", "before the directory goes")
+			h.W("rmall", d, nil)
+			if h.cfg.PreReset {
+				h.inProbe = true
+				sampleReflog(h)
+				h.inProbe = false
+			}
+			h.X(tz, "reset", "--hard", "HEAD@{0}")
+			h.X(tz, "status")
+		}
 	case "rmdir":
 		if len(h.obs.Dirs) > 0 {
 			h.W("rmall", h.obs.Dirs[r.intn(len(h.obs.Dirs))], nil)
@@ -701,7 +722,29 @@ func (h *Hist) step() {
 		var args []string
 		n := 1 + r.intn(3)
 		for i := 0; i < n; i++ {
-			switch y := r.intn(12); {
+			switch y := r.intn(13); {
+			case y == 12:
+				// a directory (or `.`) followed by a tracked path beneath it that is gone from the disk: the walk of
+				// the directory stages what exists, the second argument must still unstage what does not
+				var gone []string
+				for _, e := range h.obs.Index {
+					if _, on := h.obs.Files[string(e.path)]; !on {
+						gone = append(gone, string(e.path))
+					}
+				}
+				if len(gone) > 0 {
+					g := gone[r.intn(len(gone))]
+					d := "."
+					if i := strings.LastIndex(g, "/"); i > 0 && r.chance(2, 3) {
+						d = g[:i]
+						if j := strings.Index(g, "/"); j > 0 && r.chance(1, 2) {
+							d = g[:j]
+						}
+					}
+					args = append(args, d, g)
+				} else if t, ok := h.pickTracked(); ok {
+					args = append(args, t)
+				}
 			case y == 10:
 				// Goit's own files, in every spelling (`add` must skip them however they are named)
 				meta := r.pick([]string{".goit", ".goit/HEAD", ".goit/index", ".goit/config", ".goit/refs/heads/main", ".goit/objects", ".goit/logs/HEAD"})
